@@ -283,7 +283,8 @@ def run(ctx):
                 extra[m] = bytes(a ^ b for a, b in zip(pm["ciphertext"], ks))
             except Exception:  # noqa: BLE001
                 pass
-    predicted = BL.loop_predicted([m for _c, m, _l in hangs] + list(extra.values())) if ctx.driver_ok and hangs else {}
+    forced = [m for c, m, _l in hangs if c.get("entry") == "trap"]  # register_trap_callback: Sequence.decode(data), no tag check
+    predicted = BL.loop_predicted([m for _c, m, _l in hangs] + list(extra.values()), forced) if ctx.driver_ok and hangs else {}
     for case, m, level in hangs:
         p = bool(predicted.get(m) or (m in extra and predicted.get(extra[m])))
         res.violate("mutation-sweep", case, "a result or an exception within the budget", "no return", "processing did not finish within the time budget", {"kind": "hang", "x690_loop_predicted": p})
